@@ -527,6 +527,7 @@ impl<'a> GeneratorState<'a> {
                 Operation::Assign => {
                     // A Y borrowed by an enclosing expression is given back by that expression
                     let outer_saved_y = self.saved_y;
+                    let outer_acc_in_use = self.acc_in_use;
                     let left = self.generate_expr(lhs, pos, high_byte, high_byte)?;
                     if high_byte {
                         if let ExprType::Absolute(_, true, _) = left {
@@ -583,6 +584,20 @@ impl<'a> GeneratorState<'a> {
                         self.tmp_in_use = false;
                         self.flags = FlagsState::Y;
                         self.carry_flag_ok = false;
+                        // The 8 bits element that has just been stored can't be read again through
+                        // Y: as the value of this expression, it is still in the accumulator
+                        if let Ok(ExprType::AbsoluteY(variable)) = &ret {
+                            let v = self.compiler_state.get_variable(variable);
+                            if v.var_type == VariableType::CharPtr {
+                                if outer_acc_in_use {
+                                    return Err(self
+                                        .compiler_state
+                                        .syntax_error("Code too complex for the compiler", pos));
+                                }
+                                self.acc_in_use = true;
+                                return Ok(ExprType::A(v.signed));
+                            }
+                        }
                     }
                     ret
                 }
